@@ -104,6 +104,34 @@ func ruleValidCoupling(p *Prog, r *Report) {
 			r.Bad(rule, n, "validity branch present", p.Pos(fn.Pos()), "no decoding of the output under xmlCheckIsValid found: XmlCheckIsValid has no effect on this encoder")
 			continue
 		}
+		// the whole document is validated: one of the validators reads tokens until the decoder reports an error (io.EOF at the end);
+		// NewMapXml / NewMapXmlSeq alone stop at the end of the root element and never see what follows it
+		drains := drainsToEOF(fn)
+		if !drains {
+			eachInstr(fn, func(b *ssa.BasicBlock, in ssa.Instruction) {
+				c, ok := in.(*ssa.Call)
+				if !ok || len(c.Call.Args) == 0 {
+					return
+				}
+				g := staticCallee(&c.Call)
+				if g == nil || !p.InModule(g) || p.Exported(g) || !fromAcc(c.Call.Args[0]) {
+					return
+				}
+				for h := range p.Reach(g) {
+					if p.InModule(h) && !p.Exported(h) && drainsToEOF(h) {
+						drains = true
+					}
+				}
+				if drainsToEOF(g) {
+					drains = true
+				}
+			})
+		}
+		if drains {
+			r.OK(rule, n, "validation reads to the end of the output", p.Pos(fn.Pos()), "a token loop over the output runs until the decoder reports an error (io.EOF)")
+		} else {
+			r.Bad(rule, n, "validation reads to the end of the output", p.Pos(fn.Pos()), "no validator reads the output to its end: a decode that stops when the root element closes accepts garbage after it")
+		}
 		if okVal {
 			r.OK(rule, n, "validator reads the encoder's output", p.Pos(fn.Pos()), fmt.Sprintf("%d validator call(s) under xmlCheckIsValid, each fed from the output accumulator", nVal))
 		} else {
@@ -171,6 +199,64 @@ func ruleValidCoupling(p *Prog, r *Report) {
 			r.Bad(rule, n, "returned bytes are the accumulator's", p.Pos(fn.Pos()), "a return hands back bytes that do not come from the output accumulator")
 		}
 	}
+}
+
+// drainsToEOF: fn contains a loop around (*xml.Decoder).Token / RawToken that can only be left when the call returned an error.
+func drainsToEOF(fn *ssa.Function) bool {
+	found := false
+	eachInstr(fn, func(b *ssa.BasicBlock, in ssa.Instruction) {
+		c, ok := in.(*ssa.Call)
+		if !ok || !isCallTo(&c.Call, "(*encoding/xml.Decoder).Token", "(*encoding/xml.Decoder).RawToken") {
+			return
+		}
+		hdr := innermostLoopHeader(b)
+		if hdr == nil {
+			return
+		}
+		loop := naturalLoop(hdr)
+		var errV ssa.Value
+		for _, ref := range *c.Referrers() {
+			if ex, ok := ref.(*ssa.Extract); ok && ex.Index == 1 {
+				errV = ex
+			}
+		}
+		if errV == nil {
+			return
+		}
+		onErr := func(cond ssa.Value) bool {
+			ng := normGuard(guard{cond, true})
+			bo, ok := ng.Cond.(*ssa.BinOp)
+			return ok && (bo.X == errV || bo.Y == errV || phiChainReachesValue(bo.X, errV))
+		}
+		ok2 := true
+		nExit := 0
+		for lb := range loop {
+			for _, sc := range lb.Succs {
+				if loop[sc] {
+					continue
+				}
+				nExit++
+				ifi, isIf := lb.Instrs[len(lb.Instrs)-1].(*ssa.If)
+				if isIf && onErr(ifi.Cond) {
+					continue
+				}
+				// or the exiting block is reached only over an error test inside the loop
+				dominated := false
+				for _, g := range dominatingGuards(lb) {
+					if onErr(g.Cond) {
+						dominated = true
+					}
+				}
+				if !dominated {
+					ok2 = false
+				}
+			}
+		}
+		if ok2 && nExit > 0 {
+			found = true
+		}
+	})
+	return found
 }
 
 // ---- PAIR.seq (C04) ----------------------------------------------------------------------------------------------
